@@ -161,6 +161,7 @@ func init() {
 		}
 		c.RunSched(c07Burst(c, "period-burst3", 3, false, vsched.Bounds{Preempt: pre, Tick: 0, Data: -1, Total: -1}, false))
 		c.RunSched(c07Burst(c, "period-burst3-witness", 3, false, vsched.Bounds{Preempt: 0, Tick: 0, Data: 0, Total: 0}, true))
+		c.RunSched(c10Waiters(c, "cold-burst-uncacheable-store-faults", true, vsched.Bounds{Preempt: pre, Tick: 0, Data: 2, Total: pre + 1}))
 		c.RunSched(c07Burst(c, "probe-burst3", 3, true, vsched.Bounds{Preempt: pre, Tick: 0, Data: -1, Total: -1}, false))
 		if c.Thorough() {
 			c.RunSched(c07Burst(c, "period-burst4", 4, false, vsched.Bounds{Preempt: 2, Tick: 0, Data: -1, Total: -1}, false))
